@@ -19,6 +19,9 @@ pub struct DriverCfg {
     pub host_faults: bool,
     pub recording_filter: bool,
     pub max_ports: u64,
+    /// ports of the instance may share a segment (redundant attachment) and use announce intervals
+    /// that differ from port to port
+    pub shared_segments: bool,
 }
 
 pub struct Driver {
@@ -56,14 +59,32 @@ impl Driver {
         spec.bmca_phase_pm = ch.range(S_CFG, 1, 999);
         spec.ports.clear();
         let mut masters = Vec::new();
+        let mut prev_seg: Option<usize> = None;
         for p in 0..nports {
-            let seg = w.add_segment(ch.range(S_CFG, 1, 400) as u128 * US, ch.range(S_CFG, 0, 20) as u128 * US);
+            let share = cfg.shared_segments && p > 0 && ch.chance(S_CFG, 1, 4);
+            let seg = match (share, prev_seg) {
+                (true, Some(sg)) => sg,
+                _ => w.add_segment(ch.range(S_CFG, 1, 400) as u128 * US, ch.range(S_CFG, 0, 20) as u128 * US),
+            };
+            prev_seg = Some(seg);
             let mut ps = PortSpec::default();
-            ps.announce_log = announce_log;
+            // (ports on one segment agree on the announce interval, as every node on a segment must)
+            ps.announce_log = match (cfg.shared_segments, share, spec.ports.last()) {
+                (true, true, Some(prev)) => prev.announce_log,
+                (true, _, _) => announce_log + *ch.pick(S_CFG, &[0i8, 0, 0, 1, 2]),
+                _ => announce_log,
+            };
             ps.sync_log = *ch.pick(S_CFG, &[announce_log, announce_log - 1, announce_log - 2, announce_log + 1]);
             ps.delay_log = *ch.pick(S_CFG, &[announce_log, announce_log - 1, announce_log + 1]);
             ps.receipt_timeout = ch.range(S_CFG, 2, 5) as u8;
             ps.p2p = ch.chance(S_CFG, 1, 3);
+            if share {
+                // the peer delay mechanism needs a point-to-point link: both ports end-to-end
+                ps.p2p = false;
+                if let Some(prev) = spec.ports.last_mut() {
+                    prev.p2p = false;
+                }
+            }
             ps.master_only = !spec.slave_only && ch.chance(S_CFG, 1, 5);
             ps.segment = Some(seg);
             ps.acceptable = match ch.choose(S_CFG, 8) {
